@@ -1421,6 +1421,20 @@ impl Fabrics {
     }
 }
 
+/// Verification hook (feature `verif`): the crate-private `Fabrics::add_load` (one fabric record
+/// of the key-value store is appended to the table), as the fail-safe roll-back uses it.
+#[cfg(feature = "verif")]
+impl Fabrics {
+    pub fn verif_add_load<S: KvBlobStore>(
+        &mut self,
+        fab_idx: u8,
+        store: S,
+        buf: &mut [u8],
+    ) -> Result<(), Error> {
+        self.add_load(fab_idx, store, buf)
+    }
+}
+
 /// A utility for persisting a fabric in a `KvBlobStore` instance.
 pub struct FabricPersist<S>(Persist<S>);
 
